@@ -1,5 +1,6 @@
 import SerfModel.Check.Core
 import SerfModel.Model.EventBuf
+import SerfModel.Gen.RestartCutoff
 /-!
 C14 checker.  Model: the event and query de-duplication buffers (`SerfModel.EventBuf`), the
 snapshot's recorded event/query clocks (the snapshotter records the largest time that passed
@@ -100,7 +101,9 @@ def step (s : St) (op : List String) (impl : String) : LineOut St :=
   | ["restart"] =>
     let ce := witness 1#64 s.lastE
     let cq := witness 1#64 s.lastQ
-    let s' := { s with ev := Buf.start s.n ce (s.lastE + 1#64), qu := Buf.start s.q cq (s.lastQ + 1#64),
+    -- the cut-off offsets are the ones written in Create (regenerated: `Gen.RestartCutoff`)
+    let s' := { s with ev := Buf.start s.n ce (s.lastE + BitVec.ofNat 64 Gen.RestartCutoff.event.minOffset),
+                       qu := Buf.start s.q cq (s.lastQ + BitVec.ofNat 64 Gen.RestartCutoff.query.minOffset),
                        cutE := some s.seenE, cutQ := some s.seenQ }
     { state := s', model := some s!"clocks {ce.toNat} {cq.toNat}" }
   | _ => { state := s, model := some "bad-op" }
